@@ -46,7 +46,14 @@ func knownFunc(key string) bool {
 			// "FuncKey<TAB>signature" (the signature is used to pair renamed functions)
 			if k := strings.Index(l, "\t"); k >= 0 {
 				knownFuncs[l[:k]] = true
-				knownSigs[l[:k]] = l[k+1:]
+				rest := strings.Split(l[k+1:], "\t")
+				knownSigs[l[:k]] = rest[0]
+				if len(rest) > 1 && rest[1] != "" {
+					if knownParams == nil {
+						knownParams = map[string][]string{}
+					}
+					knownParams[l[:k]] = strings.Split(rest[1], ",")
+				}
 			} else {
 				knownFuncs[l] = true
 			}
